@@ -132,21 +132,60 @@ Qed.
 (* reproducibility: a non-zero seed never reads the timer; the stream is a function of the seed alone *)
 Definition Lcg_deterministic_stmt : Prop :=
   forall seed timer1 timer2 n, seed <> 0 ->
-    giv_ctor timer1 seed = Some seed /\
+    giv_ctor timer1 seed = Some (giv_ctor_nz seed) /\
     option_map (lcg_draws n) (giv_ctor timer1 seed) = option_map (lcg_draws n) (giv_ctor timer2 seed).
-Lemma giv_ctor_nonzero timer s : s <> 0 -> giv_ctor timer s = Some s.
+Lemma giv_ctor_nonzero timer s : s <> 0 -> giv_ctor timer s = Some (giv_norm s).
 Proof. intros H. destruct timer; cbn [giv_ctor]; destruct (Z.eqb_spec s 0); congruence. Qed.
 Lemma lcg_deterministic : Lcg_deterministic_stmt.
 Proof. intros seed t1 t2 n H. rewrite !giv_ctor_nonzero by assumption. split; reflexivity. Qed.
 
-(* seed 0: the state is the first non-zero timer reading (nondeterministic by design) *)
-Lemma giv_ctor_zero t ts : t <> 0 -> 0 <= t < two64 -> giv_ctor (t :: ts) 0 = Some t.
+(* seed 0: the state is (the normalisation of) the first non-zero timer reading (nondeterministic by design) *)
+Lemma giv_ctor_zero t ts : t <> 0 -> 0 <= t < two64 -> giv_ctor (t :: ts) 0 = Some (giv_norm t).
 Proof.
   intros H Hb. cbn [giv_ctor]. change (0 =? 0) with true. cbv iota.
   rewrite u64_id by assumption. apply giv_ctor_nonzero. assumption.
 Qed.
 
-(* ---- the two classes of non-zero seeds for which the stream is NOT in [1, M-1] *)
+(* ---- every non-zero seed: full statement, proved for the normalising constructor, refuted for the raw one *)
+Definition Lcg_every_seed_stmt : Prop :=
+  forall timer seed st n, 0 < seed < two64 -> giv_ctor timer seed = Some st ->
+    1 <= st <= M - 1 /\ Forall (fun x => 1 <= x <= M - 1) (lcg_draws n st).
+Lemma giv_norm_true s : giv_ctor_normalises = true -> 0 < s < two64 -> 1 <= giv_norm s <= M - 1.
+Proof.
+  intros E Hs. unfold giv_norm. rewrite E. change (u64 (giv_modulo - 1)) with 2147483646.
+  unfold u64, two64 in *. change M with 2147483647. lia.
+Qed.
+Lemma giv_norm_false s : giv_ctor_normalises = false -> giv_norm s = s.
+Proof. intros E. unfold giv_norm. rewrite E. reflexivity. Qed.
+(* the normalisation is the identity on the states that were good before *)
+Lemma giv_norm_id s : 1 <= s <= M - 1 -> giv_norm s = s.
+Proof.
+  intros Hs. unfold giv_norm. destruct giv_ctor_normalises; [| reflexivity].
+  change (u64 (giv_modulo - 1)) with 2147483646.
+  unfold u64, two64. change M with 2147483647 in Hs. lia.
+Qed.
+Lemma lcg_every_seed_norm : giv_ctor_normalises = true -> Lcg_every_seed_stmt.
+Proof.
+  intros E timer seed st n Hs Hc. rewrite giv_ctor_nonzero in Hc by lia. injection Hc as <-.
+  pose proof (giv_norm_true seed E Hs) as Hv. split; [assumption|].
+  apply lcg_stream_range. destruct (valid_state_small _ Hv). split; assumption.
+Qed.
+Lemma lcg_every_seed_raw : giv_ctor_normalises = false -> ~ Lcg_every_seed_stmt.
+Proof.
+  intros E H. specialize (H [] M M 0%nat).
+  assert (Hc : giv_ctor [] M = Some M) by (rewrite giv_ctor_nonzero by discriminate; rewrite giv_norm_false by assumption; reflexivity).
+  specialize (H ltac:(split; reflexivity) Hc). destruct H as [H _]. lia.
+Qed.
+Definition Lcg_every_seed_verdict : Prop :=
+  if giv_ctor_normalises then Lcg_every_seed_stmt else ~ Lcg_every_seed_stmt.
+Lemma lcg_every_seed : Lcg_every_seed_verdict.
+Proof.
+  unfold Lcg_every_seed_verdict. destruct giv_ctor_normalises eqn:E;
+    [exact (lcg_every_seed_norm E) | exact (lcg_every_seed_raw E)].
+Qed.
+
+(* ---- the two classes of non-zero STATES for which the stream is NOT in [1, M-1]
+   (reachable from a seed exactly when the constructor does not normalise) *)
 
 (* (1) a non-zero multiple of M: every draw is 0 (and ring nonzerorandom loops never end, see ProofsRing) *)
 Lemma lcg_next_multiple s : 0 <= s <= seed_max -> s mod M = 0 -> lcg_next s = 0.
